@@ -9,9 +9,10 @@ Parts
               commuting independent semaphore operations) of every 2-thread
               Condition program with <=2 ops per thread (exhaustive)
   event_dfs2  the same for every 2-thread Event program with <=2 ops per thread
-  cond_dfs3   the same for 3-thread Condition programs: one op per thread
-  event_dfs3  (quick), plus one thread with two ops (thorough; exhaustive only
-              if neither the per-program cap nor the time cap cut in)
+  cond_dfs3   the same for 3-thread programs: one op per thread (cond_dfs3 in
+  event_dfs3  both tiers, event_dfs3 thorough only), plus one thread with two
+              ops (thorough; exhaustive only if neither the per-program cap
+              nor the time cap cut in)
   real        real Lock / RLock / Semaphore(n) / BoundedSemaphore(n) contended
               by 2-8 processes x threads; holder witness in shared memory
   seqsem      real BoundedSemaphore / Semaphore / RLock driven sequentially
@@ -66,11 +67,15 @@ ASSUMPTIONS = [
     'real: interleavings are whatever the OS produces; a broken lock is '
     'detected with high probability, not certainty; the C SemLock is only '
     'exercised here',
-    'after each simulated program a fixed epilogue (notify_all for legit '
-    'sleepers, wait+notify, timed wait, wait+notify) probes that the '
-    'condition was left consistent, using API-level observations only',
+    'after each simulated program a fixed epilogue probes, by API-level '
+    'observations only, that the object was left consistent: notify_all / '
+    'set() rounds must wake every legit sleeper; then two fresh sleepers + '
+    'one notify (exactly one wakes), a timed wait alone (False), notify_all '
+    '(all wake); for Event is_set/clear/timed wait/set with two sleepers',
+    'one logical thread without untimed waits runs on the harness thread '
+    'itself (same scheduler semantics, one OS thread less)',
 ]
-SHARDS = {'quick': 8, 'thorough': 16}
+SHARDS = {'quick': 12, 'thorough': 16}
 
 
 # ===========================================================================
@@ -165,8 +170,19 @@ def _accepts(events, stuck_waits, check_stuck=True):
     """Nondeterministic specification automaton for a condition variable;
     exhaustive search over which waiter each notify() serves."""
 
+    dead = set()      # (position, state) pairs already found hopeless
+
     def rec(i, active):
-        # active: wid -> [timed, token]
+        key = (i, tuple(sorted(active.items())))
+        if key in dead:
+            return False
+        if rec1(i, active):
+            return True
+        dead.add(key)
+        return False
+
+    def rec1(i, active):
+        # active: wid -> (timed, token)
         while i < len(events):
             ev = events[i]
             if ev[0] == 'E':
@@ -262,7 +278,9 @@ def _cond_verdict(trace, sched, waitname):
     for lt in stuck:
         if lt.idx in open_wait:
             op = lt.pending
-            if op is not None and op[0] == 'acq' and op[1].name == waitname:
+            if lt.inline or (op is not None and op[0] == 'acq'
+                             and op[1].name == waitname):
+                # (a thread run inline has been unwound when it got stuck)
                 stuck_waits.append(open_wait[lt.idx])
                 continue
         return ('C17/cond/stuck-outside-wait', 'thread %s blocked on %s'
@@ -714,7 +732,8 @@ def real_cases():
     return st.builds(
         build,
         st.sampled_from(['lock', 'rlock', 'sem', 'bsem']),
-        st.integers(1, 3), st.integers(1, 4), st.integers(1, 4),
+        st.integers(1, 3), st.sampled_from([1, 2, 2, 3, 4, 4]),
+        st.sampled_from([1, 1, 2, 2, 3, 4]),
         st.sampled_from([60, 150, 300]), st.integers(1, 3),
         st.sampled_from([0, 0, 20, 200]),
         st.sampled_from(['fork', 'fork', 'fork', 'fork', 'fork', 'spawn']))
@@ -769,13 +788,12 @@ def real_fixed(seed):
     rows = [('lock', 1, 2, 1, 1, 0, 'fork'), ('lock', 1, 1, 2, 1, 200, 'fork'),
             ('lock', 1, 4, 2, 1, 20, 'fork'), ('lock', 1, 3, 1, 1, 20, 'spawn'),
             ('rlock', 1, 2, 2, 2, 20, 'fork'), ('rlock', 1, 3, 1, 3, 0, 'fork'),
-            ('rlock', 1, 1, 3, 2, 200, 'fork'), ('rlock', 1, 4, 1, 1, 20, 'fork'),
-            ('sem', 2, 4, 1, 1, 20, 'fork'), ('sem', 2, 2, 3, 1, 200, 'fork'),
-            ('sem', 3, 4, 2, 1, 20, 'fork'), ('sem', 3, 1, 4, 1, 200, 'fork'),
-            ('bsem', 2, 3, 2, 1, 20, 'fork'), ('bsem', 2, 2, 2, 1, 0, 'fork'),
-            ('bsem', 1, 2, 1, 1, 20, 'fork'), ('bsem', 3, 8, 1, 1, 20, 'fork')]
+            ('rlock', 1, 1, 3, 2, 200, 'fork'),
+            ('sem', 2, 4, 1, 1, 20, 'fork'), ('sem', 3, 2, 3, 1, 200, 'fork'),
+            ('bsem', 2, 3, 2, 1, 20, 'fork'), ('bsem', 1, 2, 1, 1, 20, 'fork'),
+            ('bsem', 3, 8, 1, 1, 20, 'fork')]
     return [{'kind': k, 'n': n, 'procs': p, 'threads': t, 'depth': d,
-             'hold': h, 'method': m, 'iters': 80 + 40 * ((seed + i) % 4)}
+             'hold': h, 'method': m, 'iters': 60 + 30 * ((seed + i) % 4)}
             for i, (k, n, p, t, d, h, m) in enumerate(rows)]
 
 
@@ -866,15 +884,26 @@ def _execute_real(case):
 
 
 def seq_cases():
-    op = st.one_of(st.tuples(st.just('a'), st.just(0)),
-                   st.tuples(st.just('r'), st.just(0)),
-                   st.tuples(st.just('r'), st.just(0)),
-                   st.tuples(st.just('o'), st.sampled_from([0, 0, 0, 0, 1])))
-    return st.fixed_dictionaries({
-        'kind': st.sampled_from(['bsem', 'bsem', 'sem', 'rlock', 'lock']),
-        'n': st.integers(1, 4),
-        'ops': st.lists(op.map(list), min_size=1, max_size=16),
-    })
+    a, r = ['a', 0], ['r', 0]
+    ot, op_ = ['o', 0], ['o', 1]
+
+    def ops(kind):
+        if kind == 'rlock':
+            # take it k times, then give it back one at a time with another
+            # party probing after every release (refused until the k-th), and
+            # a short random tail
+            probe = st.sampled_from([ot, ot, ot, op_])
+            tail = st.lists(st.sampled_from([a, r, ot]), max_size=4)
+            return st.integers(1, 4).flatmap(lambda k: st.tuples(
+                st.lists(probe, min_size=k, max_size=k), tail).map(
+                    lambda pt: [a] * k + [x for pr in pt[0] for x in (r, pr)]
+                    + pt[1]))
+        el = st.sampled_from([a, a, a, r, r, r, r, ot, ot, ot, ot, op_])
+        return st.lists(el, min_size=1, max_size=14)
+
+    return st.sampled_from(['bsem', 'bsem', 'sem', 'rlock', 'rlock', 'lock']) \
+        .flatmap(lambda kind: st.fixed_dictionaries({
+            'kind': st.just(kind), 'n': st.integers(1, 4), 'ops': ops(kind)}))
 
 
 def execute_seq(case):
@@ -895,6 +924,7 @@ def execute_seq(case):
         prim, n = bctx.Lock(), 1
     value = n          # model: free units
     held = 0           # model: acquisitions by the owner (rlock depth)
+    partial = False    # rlock: some, not all, acquisitions were given back
     labels = set(['kind=' + kind])
 
     def other_thread():
@@ -932,6 +962,7 @@ def execute_seq(case):
                     return bad('C17/seq/rlock-reacquire', 'owner could not '
                                're-acquire its RLock at op %d' % i)
                 held += 1
+                partial = False
             else:
                 if got and value <= 0:
                     return bad('C17/seq/over-admission/' + kind,
@@ -951,6 +982,7 @@ def execute_seq(case):
                     continue      # releasing an unowned RLock: not in scope
                 prim.release()
                 held -= 1
+                partial = held >= 1
             elif kind == 'lock':
                 if held == 0:
                     continue      # statement speaks of bounded semaphores only
@@ -1001,8 +1033,7 @@ def execute_seq(case):
             if not got:
                 labels.add('other_refused')
                 if kind == 'rlock' and held >= 1:
-                    labels.add('rlock_partial_release_holds'
-                               if any(o[0] == 'r' for o in case['ops'][:i])
+                    labels.add('rlock_partial_release_holds' if partial
                                else 'rlock_held')
     nontrivial = bool(labels & {'over_release_refused', 'other_refused',
                                 'acquire_refused'})
@@ -1016,8 +1047,41 @@ PARTS = {'cond': execute_cond, 'event': execute_event,
          'seqsem': execute_seq}
 
 
+class _Budget(Exception):
+    """ends a generated part when its time budget is used up"""
+
+
+def _explore(ctx, part, strategy, execute, n, cap, **kw):
+    """ctx.explore with a time budget that really ends the part: vlib's own
+    time_cap stops executing but lets Hypothesis generate the remaining
+    examples, which costs as much as running them on a busy box.  Never cuts
+    in once a violation has been seen (its shrinking must go on)."""
+    if not ctx.wants(part):
+        return
+    t0 = time.time()
+    state = {'stop': False, 'violated': False}
+
+    def ex(case):
+        if not state['violated'] and (state['stop'] or
+                                      time.time() - t0 > cap):
+            state['stop'] = True
+            raise _Budget()
+        out = execute(case)
+        if out.violated:
+            state['violated'] = True
+        return out
+
+    try:
+        ctx.explore(part, strategy, ex, n=n, **kw)
+    except _Budget:
+        p = ctx.part(part)
+        p.budget_cut = True
+        p.wall += time.time() - t0
+
+
 def run(ctx):
     thorough = ctx.tier == 'thorough'
+
     def note(e):
         ctx.notes['dfs_runs_abandoned_as_redundant'] = \
             ctx.notes.get('dfs_runs_abandoned_as_redundant', 0) + e.abandoned
@@ -1033,29 +1097,32 @@ def run(ctx):
     # the generated parts are time-capped (a cut is recorded as budget_cut,
     # never a violation): a context switch costs 30 us on an idle box and
     # milliseconds on a busy one
-    ctx.explore('cond', cond_cases(), execute_cond, n=ctx.pick(300, 30000),
-                time_cap=ctx.pick(10, 240))
-    ctx.explore('event', event_cases(), execute_event, n=ctx.pick(250, 20000),
-                time_cap=ctx.pick(8, 180))
-    ctx.explore('seqsem', seq_cases(), execute_seq, n=ctx.pick(25, 1500),
-                time_cap=ctx.pick(5, 60))
+    _explore(ctx, 'cond', cond_cases(), execute_cond, ctx.pick(200, 30000),
+             ctx.pick(10, 180))
+    _explore(ctx, 'event', event_cases(), execute_event, ctx.pick(160, 20000),
+             ctx.pick(8, 120))
+    _explore(ctx, 'seqsem', seq_cases(), execute_seq, ctx.pick(15, 1500),
+             ctx.pick(5, 40))
     if thorough:
-        ctx.explore('real', real_cases(), execute_real, n=40,
-                    shrink_budget=0, reexecute_confirm=2, time_cap=150)
+        _explore(ctx, 'real', real_cases(), execute_real, 40, 100,
+                 shrink_budget=0, reexecute_confirm=2)
     else:
         ctx.enumerate('real', real_fixed(ctx.seed), execute_real,
                       complete_is_exhaustive=False)
-    # three threads: quick = one op per thread; thorough adds the programs in
-    # which one thread has two ops.  No preemption bound (sleep sets make the
-    # full enumeration affordable); a per-program cap of 30000 runs and a time
-    # cap guard the budget - the part is exhaustive only if neither cut in.
+    # three threads: quick = Condition, one op per thread; thorough adds Event
+    # and the programs in which one thread has two ops.  No preemption bound
+    # (sleep sets make the full enumeration affordable); a per-program cap of
+    # 30000 runs and a time cap guard the budget - the part is exhaustive
+    # only if neither cut in.
     for part, runner, alphabet in (('cond_dfs3', run_cond, _COND_OPS),
                                    ('event_dfs3', run_event, _EVENT_OPS)):
+        if part == 'event_dfs3' and not thorough:
+            continue
         e = _Enumerator(ctx, runner,
                         {'lock': 'rlock'} if runner is run_cond else {},
                         programs3(alphabet, two=thorough), limit=30000)
         ctx.enumerate(part, e.cases(), e.execute,
-                      time_cap=None if not thorough else 200)
+                      time_cap=None if not thorough else 150)
         note(e)
         if e.truncated and ctx.wants(part):
             ctx.part(part).exhaustive = False
